@@ -114,6 +114,11 @@ class DictDecoder:
         Returns:
             An instance of the class type representing the parsed content.
         """
+        if not isinstance(data, dict):
+            raise ParserError(
+                f"Document is {type(data).__name__}, expected object"
+            )
+
         if set(data.keys()) == self.context.class_type.derived_keys:
             return self.bind_derived_dataclass(data, clazz)
 
